@@ -53,6 +53,7 @@ def check_one(rng, X, trunc, param, reuse=None):
     params_before = dict(est.get_params())
     Xc = np.array(X, copy=True)
     est.fit(X)
+    common.note_case('tsvd', trunc, param, reuse is not None, np.ascontiguousarray(X, dtype=float))
     if est.get_params() != params_before:
         return False, dict(what='fit modified the constructor parameters',
                            before=str(params_before), after=str(est.get_params())), None, None
